@@ -417,6 +417,9 @@ func c05Poison(a *ChildArgs, avoid map[string]bool, seed int64, afterKeywords bo
 			return
 		}
 		ks = []int{cand[r.Intn(len(cand))]}
+		if r.Intn(4) == 0 {
+			ks = append(ks, 0) // the never-legal token as the very first token of the statement
+		}
 	}
 	seplist := []string{" ", "  ", "\n", "\n\n  ", " /* c */ ", " -- n\n", "\n/* a\n b */\n"}
 	for _, k := range ks {
@@ -474,6 +477,21 @@ func c05Poison(a *ChildArgs, avoid map[string]bool, seed int64, afterKeywords bo
 		}
 		a.Rec.Count("located_errors", 1)
 		if ge.Location.Line == pLine && ge.Location.Column == pCol {
+			// recovery-mode parsing of the same text names the same place (judged only where the position-tracking
+			// strict parse is right, so that one misplacement is not reported under two names)
+			if _, rerrs := gosqlx.ParseWithRecovery(text); len(rerrs) > 0 {
+				var pe *parser.ParseError
+				if errors.As(rerrs[0], &pe) && (pe.Line != pLine || pe.Column != pCol) {
+					pos := "first-token"
+					if k > 0 {
+						pos = "later-token"
+					}
+					a.Rec.Viol("C05/parserr-recovery/"+pos+"/"+string(ge.Code), "a syntax error is located at the offending token",
+						fmt.Sprintf("never-legal token %q is at %d:%d; ParseWithPositions says %d:%d, the first recovery error says %d:%d", ps, pLine, pCol, ge.Location.Line, ge.Location.Column, pe.Line, pe.Column), wit)
+				} else if pe != nil {
+					a.Rec.Count("recovery_errors_located", 1)
+				}
+			}
 			continue
 		}
 		class := "elsewhere"
